@@ -76,27 +76,24 @@ class O2JMap(Map[O2JNoteList, O2JHitList, O2JHoldList, O2JBpmList]):
 
         offset = 0
         measure = 0
-        bpm_ix = -1
+        bpm_ix = 0
         bpm_val = init_bpm
 
-        next_bpm_measure = bpms[0].measure if len(bpms) > 0 else None
-        for note_measure in note_measures:
-            if not next_bpm_measure:
-                while note_measure > next_bpm_measure:
-                    bpm_ix += 1
-                    bpm = bpms[bpm_ix]
-                    # Update offset
-                    offset += RAConst.min_to_msec((bpm.measure - measure) * 4 / bpm_val)
-                    bpm.offset = offset
-                    measure = bpm.measure
-                    bpm_val = bpm.bpm
+        # The trailing None flushes the bpm events after the last note.
+        for note_measure in [*note_measures, None]:
+            while bpm_ix < len(bpms) and (
+                note_measure is None or bpms[bpm_ix].measure <= note_measure
+            ):
+                bpm = bpms[bpm_ix]
+                # Update offset
+                offset += RAConst.min_to_msec((bpm.measure - measure) * 4 / bpm_val)
+                bpm.offset = offset
+                measure = bpm.measure
+                bpm_val = bpm.bpm
+                bpm_ix += 1
 
-                    # Check if next one is available
-                    if bpm_ix + 1 == len(bpms):
-                        next_bpm_measure = None
-                        break
-                    else:
-                        next_bpm_measure = bpm.measure
+            if note_measure is None:
+                break
 
             # We add it into the measure: offset dictionary.
             note_measure_dict[note_measure] = offset + RAConst.min_to_msec(
